@@ -13,9 +13,9 @@ aggregate_by_p_id_erziehungsgeld = {
 
 @policy_info(start_date="2004-01-01", end_date="2008-12-31")
 def erziehungsgeld_m(
-    erziehungsgeld_eltern_m: int,
+    erziehungsgeld_eltern_m: float,
     erziehungsgeld_anspruch_eltern: bool,
-) -> bool:
+) -> float:
     """Total parental leave benefits (Erziehungsgeld).
 
     Parental leave benefits for the parent that claims the benefit.
